@@ -264,6 +264,58 @@ fn usability_probe(db: &mut Db) -> Option<String> {
     None
 }
 
+
+/// Constraint probe after recovery: rows with a NULL in each column in turn, and a copy of an existing row, are
+/// offered to every table. Built from `shape` (names and types); returns the statements and whether the engine
+/// accepted each.
+fn constraint_probe(db: &mut Db, shape: &State, other: Option<&State>) -> Vec<(Stmt, bool, String)> {
+    let mut v = vec![];
+    let mut n = 0i64;
+    for (name, tb) in &shape.tables {
+        let fresh = |n: i64, skip: Option<usize>| -> Vec<Val> {
+            tb.def
+                .cols
+                .iter()
+                .enumerate()
+                .map(|(j, c)| {
+                    if Some(j) == skip {
+                        return Val::Null;
+                    }
+                    let x = 5000 + 16 * n + j as i64;
+                    match c.ty {
+                        Ty::Int | Ty::BigInt => Val::Int(x),
+                        Ty::Double => Val::Dbl(x as f64),
+                        Ty::Text => Val::Text(format!("zp{x}")),
+                        Ty::Bool => Val::Bool(n % 2 == 0),
+                    }
+                })
+                .collect()
+        };
+        // (a NULL in a column under a unique key is the business of C07: open finding unique.null_key)
+        let mut rows: Vec<Vec<Val>> = (0..tb.def.cols.len()).filter(|j| !tb.def.uniques.iter().chain(other.and_then(|o| o.tables.get(name)).map(|t| t.def.uniques.iter()).into_iter().flatten()).any(|u| u.contains(j))).map(|j| { n += 1; fresh(n, Some(j)) }).collect();
+        if let Some(r) = tb.rows.values().next() {
+            rows.push(r.clone());
+        }
+        for row in rows {
+            let st = Stmt::Insert { table: name.clone(), cols: None, rows: vec![row] };
+            let sql = crate::sqlmodel::stmt_sql(&st, shape);
+            let (ok, sql) = match db.exec(&sql) {
+                Ok(_) => (true, sql),
+                Err(e) => (false, format!("{sql}` -> `{}", truncate(&e.text(), 160))),
+            };
+            v.push((st, ok, sql));
+        }
+    }
+    v
+}
+
+/// What the model says about the probe statements when they run, in order, on `state`.
+fn probe_expectation(state: &State, probe: &[(Stmt, bool, String)]) -> Vec<bool> {
+    let mut view = state.clone();
+    let mut next = u64::MAX / 4;
+    probe.iter().map(|(st, _, _)| !matches!(crate::sqlmodel::exec_model(&mut view, &mut next, st).0, MOut::Err(..))).collect()
+}
+
 /// Opens `files` as a database and observes it. Optionally records the I/O of the open (recovery).
 fn open_and_observe(files: &Files, cfg: Cfg, record_recovery: bool) -> (Observed, Option<Db>, Vec<IoEvent>) {
     let sc = write_image(files);
@@ -406,6 +458,26 @@ pub fn run_crash(c: &CrashCase) -> CrashReport {
                             Err(e) => push("c08.second_open_fails", e, &mut failures),
                         },
                         Err(e) => push("c08.second_open_fails", e.text(), &mut failures),
+                    }
+                    // constraints are part of the state: what the tables accept and reject after recovery is what the
+                    // acknowledged schema (or the one of the in-flight commit) accepts and rejects
+                    if db.usable() && (same_obs(&s, &a) || ok_next) && !acked.committed.tables.is_empty() {
+                        let shape = if same_obs(&s, &a) { &acked.committed } else { &inflight.unwrap().committed };
+                        let probe = constraint_probe(&mut db, shape, inflight.map(|m| &m.committed));
+                        let got: Vec<bool> = probe.iter().map(|p| p.1).collect();
+                        let want_a = probe_expectation(&acked.committed, &probe);
+                        let want_n = inflight.map(|m| probe_expectation(&m.committed, &probe));
+                        out.labels.push("constraint_probe".into());
+                        if got != want_a && Some(&got) != want_n.as_ref() {
+                            let want = if same_obs(&s, &a) { &want_a } else { want_n.as_ref().unwrap_or(&want_a) };
+                            if let Some(i) = (0..got.len()).find(|i| got[*i] != want[*i]) {
+                                if got[i] {
+                                    push("c01.acknowledged_constraint_lost", format!("after recovery `{}` is accepted; the acknowledged schema rejects it", probe[i].2), &mut failures);
+                                } else {
+                                    push("c02.unacknowledged_constraint_in_force", format!("after recovery `{}` is rejected; the acknowledged schema accepts it", probe[i].2), &mut failures);
+                                }
+                            }
+                        }
                     }
                     drop(db);
                 }
